@@ -218,7 +218,8 @@ PROPS = {
     "C15": dict(
         quick_scale=10, thorough_scale=16, run=native_both_profiles, level=EXPL, technique="model-based random operation sequences against an exact executable model; scripted recording history; fault-injecting getters, clocks and settable; panic capture",
         rule="three sub-checks: seq (operation sequences <=40 over a recording settable with scripted accept/reject, two scripted getters, a ConstantGetter that is settable/following/followable, four clock kinds), hist (GetterFromHistory over a scripted history recording every queried time, four constructors by quota, three clock kinds, <=40 ops from {get, clock advance/jump/error, set_delta, set_time, update with scripted errors}), adapters (Time as TimeGetter, NoneGetter, TimeGetterFromGetter, ConstantGetter); after every operation result, get_last_request, the impl_set log, get() and the history's query log are compared exactly with the model; distinct = (previous op, op, following state, followed-getter category) / (constructor, clock kind, op bigram, offset class) / event bigrams",
-        assumptions=["in hist clock values, starts, deltas and set_time targets range over the whole of i64, each partner quantity being constructed so that now+delta, start-now, t-now and -now stay inside i64 (clock readings > i64::MIN): nothing overflows",
+        assumptions=["builtin sub-check: the same bookkeeping/following model over every impl of Settable in the crate - ConstantGetter, Terminal (its Datum<Command> and Datum<State> facets, unconnected; its own getters show the stored request) and CommandPID crossed with its process input being present / absent / erroring; for a Terminal whose OTHER facet's followed getter errs, forwarding on this facet is accepted either way (order undocumented); a CommandPID update may also return its process input's error, no order between error sources asserted",
+                     "in hist clock values, starts, deltas and set_time targets range over the whole of i64, each partner quantity being constructed so that now+delta, start-now, t-now and -now stay inside i64 (clock readings > i64::MIN): nothing overflows",
                      "a read-once followed getter or clock (first poll differs from later polls) is decided by its FIRST read; poll counts are not asserted",
                      "a settable whose update() does not call update_following_data forwards nothing on update()",
                      "GetterFromHistory::update: the statement is silent, so only 'Ok(()) when no inner update fails, otherwise Ok or one of the injected errors' is required (no order, no call counts; corrected after the benign refactor seeded/benign/C15-D raised a false alarm)"],
